@@ -14,6 +14,8 @@ func init() {
 	vfRegister("VfC05_runElection", VfC05_runElection)
 	vfRegister("VfC04_doModify", VfC04_doModify)
 	vfRegister("VfC08_flushDecision", VfC08_flushDecision)
+	vfRegister("VfC04_history2", VfC04_history2)
+	vfRegister("VfC04_history3", VfC04_history3)
 }
 
 func eq128(aH, aL, bH, bL uint64) bool { return vfAnd(aH == bH, aL == bL) }
@@ -301,3 +303,52 @@ func VfC08_flushDecision() {
 	vfReach("authorised")
 	vfReach("end")
 }
+
+// vfC04History: sessions A and B (both SINGLE_PRIMARY/PRESERVE) make K election
+// announcements in an arbitrary order with arbitrary 128-bit ids; then either
+// session sends one operation stamped with an arbitrary id.  The primary and the
+// highest learnt id are computed by the harness with true 128-bit ordering
+// (not read back from the server), so a wrong ordering anywhere in the election
+// path shows up as an operation of a non-primary reaching the RIB.
+func vfC04History(k int) {
+	s := &Server{cs: map[string]*clientState{}, masterRIB: rib.New(DefaultNetworkInstanceName)}
+	for _, c := range []string{"A", "B"} {
+		s.cs[c] = &clientState{params: &clientParams{ExpectElecID: true, Persist: true}, setParams: true}
+	}
+	has := false
+	var maxH, maxL uint64
+	primary := ""
+	lastSet := map[string]bool{}
+	lastH, lastL := map[string]uint64{}, map[string]uint64{}
+	for i := 0; i < k; i++ {
+		x := "A"
+		if vfBool("announce.by-B") {
+			x = "B"
+		}
+		h, l := vfU64("announce.hi"), vfU64("announce.lo")
+		vfAssume(vfOr(h != 0, l != 0))
+		_, err := s.runElection(x, &spb.Uint128{High: h, Low: l})
+		vfAssert(err == nil, "C04:valid-announcement-accepted")
+		lastSet[x], lastH[x], lastL[x] = true, h, l
+		wins := vfOr(!has, ge128(h, l, maxH, maxL))
+		maxH, maxL = vfIte64(wins, h, maxH), vfIte64(wins, l, maxL)
+		primary = vfIteStr(wins, x, primary)
+		has = true
+	}
+	y := "A"
+	if vfBool("op.by-B") {
+		y = "B"
+	}
+	eH, eL := vfU64("op.e.hi"), vfU64("op.e.lo")
+	resCh, errCh := make(chan *spb.ModifyResponse, 8), make(chan error, 8)
+	s.doModify(y, []*spb.AFTOperation{vfNHOp(1, DefaultNetworkInstanceName, 100, &spb.Uint128{High: eH, Low: eL})}, resCh, errCh)
+	legit := false
+	if has && lastSet[y] {
+		legit = vfAnd(y == primary, vfAnd(eq128(eH, eL, lastH[y], lastL[y]), eq128(eH, eL, maxH, maxL)))
+	}
+	vfAssert(vfNHInstalled(s.masterRIB, DefaultNetworkInstanceName, 100) == legit, "C04:rib-changed-iff-sent-by-the-true-primary-with-the-highest-id")
+	vfReach("end")
+}
+
+func VfC04_history2() { vfC04History(2) }
+func VfC04_history3() { vfC04History(3) }
